@@ -19,4 +19,5 @@ let table : (Stdlib.String.t * (z list -> z list)) list = [
   "c04e", c04e_entry;
   "c04d", c04d_entry;
   "c04s", c04s_entry;
+  "c06", c06_entry;
 ]
